@@ -27,10 +27,10 @@ Qed.
 Print Assumptions C02_history_never_writes_through.
 
 (* dry-run and a refused run leave even the destination untouched (C08 / C07); --verify-only has no mutating step (C15) *)
-Theorem C02_dry_run_and_refusal_touch_nothing : forall refuse ds c now U src dst,
-  (c_dry_run c = true -> r_fs (run refuse ds c now U src dst) = dst) /\
-  (r_refused (run refuse ds c now U src dst) = true -> r_fs (run refuse ds c now U src dst) = dst).
+Theorem C02_dry_run_and_refusal_touch_nothing : forall refuse ds c now U keep src dst,
+  (c_dry_run c = true -> r_fs (run refuse ds c now U keep src dst) = dst) /\
+  (r_refused (run refuse ds c now U keep src dst) = true -> r_fs (run refuse ds c now U keep src dst) = dst).
 Proof.
-  intros. split; [apply dry_run_changes_nothing | intro H; apply (refusal_changes_nothing refuse ds c now U src dst H)].
+  intros. split; [apply dry_run_changes_nothing | intro H; apply (refusal_changes_nothing refuse ds c now U keep src dst H)].
 Qed.
 Print Assumptions C02_dry_run_and_refusal_touch_nothing.
